@@ -1093,3 +1093,61 @@ mutant("c09-double-count-attachment", "C09", "C09-D4", "parser/json/binary.go",
        "			*numBuffers++\n", "			*numBuffers++\n			if len(buf) == 0 {\n				*numBuffers++\n			}\n")
 mutant("c09-reader-namespace-text-only", "C09", "C09-D2", "parser/json/decode.go",
        "	if len(data) >= 1 && data[0] == '/' {", "	if !header.IsBinary() && len(data) >= 1 && data[0] == '/' {")
+
+# ---------------------------------------------------------------- C15
+mutant("c15-no-nonpositive-guard", "C15", "C15-D1", "backoff.go",
+       """	if ms <= 0 {
+		return b.max
+	}
+	return time.Duration""",
+       """	return time.Duration""")
+mutant("c15-math-max", "C15", "C15-D1", "backoff.go",
+       "	return time.Duration(math.Min(float64(ms), float64(b.max)))", "	return time.Duration(math.Max(float64(ms), float64(b.max)))")
+mutant("c15-min-with-min", "C15", "C15-D1", "backoff.go",
+       "	return time.Duration(math.Min(float64(ms), float64(b.max)))", "	return time.Duration(math.Min(float64(ms), float64(b.min*1000)))")
+mutant("c15-two-durations-per-attempt", "C15", "C15-D2", "client_manager_conn.go",
+       "	delay := m.backoff.duration()\n", "	delay := m.backoff.duration()\n	if delay < time.Millisecond {\n		delay = m.backoff.duration()\n	}\n")
+mutant("c15-volatile-branches-swapped", "C15", "C15-D3", "client_socket.go",
+       "		} else if !volatile {\n			s.sendBufferMu.Lock()", "		} else if volatile {\n			s.sendBufferMu.Lock()")
+mutant("c15-flush-without-clear", "C15", "C15-D3", "client_socket.go",
+       "		s.manager.packet(packets...)\n		s.sendBuffer = nil\n", "		s.manager.packet(packets...)\n")
+mutant("c15-early-return-in-replay", "C15", "C15-D3", "client_socket.go",
+       """			if ok && sent {
+				mu.Unlock()
+				continue
+			}
+			ackIDs[*event.header.ID] = true""",
+       """			if ok && sent {
+				mu.Unlock()
+				return
+			}
+			ackIDs[*event.header.ID] = true""")
+mutant("c15-failed-off-by-one", "C15", "C15-D2", "client_manager_conn.go",
+       "	didAttemptsReachedMaxAttempts := m.reconnectionAttempts > 0 && attempts >= m.reconnectionAttempts", "	didAttemptsReachedMaxAttempts := m.reconnectionAttempts > 0 && attempts > m.reconnectionAttempts")
+mutant("c15-no-reset-on-give-up", "C15", "C15-D2", "client_manager_conn.go",
+       """		m.debug.Log("Maximum attempts reached. Attempts made so far", attempts)
+		m.backoff.reset()""",
+       """		m.debug.Log("Maximum attempts reached. Attempts made so far", attempts)""")
+mutant("c15-attempt-counted-twice", "C15", "C15-D1", "backoff.go",
+       "	b.numAttempts++\n	b.numAttemptsMu.Unlock()\n\n	if b.jitter > 0 {", "	b.numAttempts++\n	b.numAttemptsMu.Unlock()\n\n	if b.jitter > 0 {\n		b.numAttempts++")
+mutant("c15-flush-before-connected", "C15", "C15-D3", "client_socket.go",
+       """	s.stateMu.Lock()
+	s.state = clientSocketConnStateConnected
+	s.stateMu.Unlock()
+
+	s.debug.Log("Socket connected")
+
+	s.emitBuffered()""",
+       """	s.emitBuffered()
+	s.stateMu.Lock()
+	s.state = clientSocketConnStateConnected
+	s.stateMu.Unlock()
+
+	s.debug.Log("Socket connected")
+""")
+mutant("c15-backoff-from-max", "C15", "C15-D1", "client_manager.go",
+       "	io.backoff = newBackoff(io.reconnectionDelay, io.reconnectionDelayMax, io.randomizationFactor)", "	io.backoff = newBackoff(io.reconnectionDelayMax, io.reconnectionDelayMax, io.randomizationFactor)")
+mutant("c15-no-retry-after-failed-attempt", "C15", "C15-D2", "client_manager_conn.go",
+       "		m.reconnectErrorHandlers.forEach(func(handler *ManagerReconnectErrorFunc) { (*handler)(err) }, true)\n		m.reconnect(true)\n", "		m.reconnectErrorHandlers.forEach(func(handler *ManagerReconnectErrorFunc) { (*handler)(err) }, true)\n")
+mutant("c15-flush-skipped-when-receive-empty", "C15", "C15-D3", "client_socket.go",
+       "	s.receiveBuffer = nil\n\n	s.sendBufferMu.Lock()", "	if len(s.receiveBuffer) == 0 {\n		return\n	}\n	s.receiveBuffer = nil\n\n	s.sendBufferMu.Lock()")
